@@ -9,6 +9,7 @@ int64_t verif_param(const char *name, int64_t dflt);         // concrete harness
 double verif_double(const char *name);                       // any of the 2^64 bit patterns (IEEE mode)
 double verif_real(const char *name);                         // real-mode double: a z3 Real (floating-point code runs over R)
 void verif_mode_real(void);
+double verif_rational(int64_t p, int64_t q);                   // exact rational constant p/q (real mode)
 void verif_bytes(void *buf, uint64_t n, const char *name);   // n fully symbolic bytes
 void verif_mpz(mpz_ptr z, const char *name, int64_t lo, int64_t hi);    // symbolic integer, Int mode (exact Z)
 void verif_mpz_bv(mpz_ptr z, const char *name, int64_t lo, int64_t hi); // symbolic integer, bit-vector mode
